@@ -52,7 +52,7 @@ func (s *Sim) ClientState(tp time.Duration, latest int64) *ibctm.ClientState {
 // ---- request builders -------------------------------------------------------------------------
 
 func (e *Env) Reset(now time.Time, selfH int64) {
-	e.Do(M{"f": "reset", "now": I(now.UnixNano()), "self": hs(mkH(e.SelfRev, uint64(selfH))), "nextSeq": U(e.K.GetNextClientSequence(e.base))})
+	e.Do(M{"f": "reset", "now": I(now.UnixNano()), "self": hs(mkH(e.SelfRev, uint64(selfH))), "nextSeq": U(e.K.GetNextClientSequence(e.root))})
 }
 
 func (e *Env) Create(cs *ibctm.ClientState, cons *ibctm.ConsensusState) (string, string) {
